@@ -1,7 +1,8 @@
 (* Properties/C18.v — statements only.  "The pool's bookkeeping never drifts; the published executables are in
    non-increasing priority-price order" over the model of txpool/tx_object_map.go + the publishing loop of wash. *)
-From Coq Require Import List NArith Bool Lia Sorted.
+From Coq Require Import List NArith ZArith Bool Lia Sorted.
 From Verif Require Import Common.Util TxPool.Model TxPool.Proofs.
+From Verif Require Common.GoInt Gen.PoolSync GenProofs.PoolSyncProofs.
 Import ListNotations.
 Open Scope N_scope.
 
@@ -48,6 +49,15 @@ Theorem drop_reasons_partial energy cands p h :
   In h (snd (publish p energy cands)) -> exists o, In o cands /\ hash o = h /\ executable o = false.
 Proof. exact (publish_drop_reason energy cands p h). Qed.
 
+(* 4. (T) the mode switch of the pool: over the definition GENERATED from txpool/tx_pool.go on every run, the pool
+      treats the chain as synced (Add evaluates against the head, housekeeping washes) iff the head's timestamp is
+      within 6 block intervals of the clock, in either direction; uint64 inputs, 6*BlockInterval < 2^64. *)
+Theorem is_chain_synced_iff (T now blk : Z) :
+  (0 <= T * 6 < 18446744073709551616)%Z ->
+  (0 <= now < 18446744073709551616)%Z -> (0 <= blk < 18446744073709551616)%Z ->
+  (PoolSync.isChainSynced T now blk = true <-> (Z.abs (now - blk) < 6 * T)%Z).
+Proof. intro H. exact (PoolSyncProofs.is_chain_synced_iff T H now blk). Qed.
+
 (* ------------------------------------------------------------------ non-vacuity *)
 Definition ex_o (h o : N) (d : option N) := mkObj h o d false None h.
 Definition ex_steps : list step :=
@@ -78,3 +88,4 @@ Print Assumptions holds_everywhere.
 Print Assumptions executables_sorted.
 Print Assumptions wash_publish_keeps_inv.
 Print Assumptions drop_reasons_partial.
+Print Assumptions is_chain_synced_iff.
